@@ -200,13 +200,6 @@ def s2_tasks(tier):
     ts += [dict(src='symbolic', part=i, parts=16) for i in range(16)]
     ts += [dict(src='labeldiff', k=k) for k in range(0, 9)]
     ts += [dict(src='shadow')]
-    # span programs at the edges of every transfer's reach, in a program that ALSO defines some unrelated name as constant and as label
-    for ref in ('beq8', 'bne56', 'jal0', 'j', 'beqz9', 'c.jB', 'c.beqzB', 'call'):
-        for d in ('fwd', 'bwd'):
-            for win in progs.WINDOWS_QUICK:
-                for ch in kernel.chunks(list(win), 8):
-                    ts.append(dict(src='shadowspan', ref=ref, dir=d, gaps=ch))
-    ts += [dict(src='nearlabel', part=i, parts=64) for i in range(64)]
     return ts
 
 
@@ -226,15 +219,6 @@ def s2_programs(task):
         yield from labeldiff_programs(task['k'])
     elif k == 'shadow':
         yield from shadow_programs()
-    elif k == 'shadowspan':
-        sym = {x[0]: x for x in progs.XFER}[task['ref']]
-        addi = progs.I('addi', rd=8, rs1=8, imm=1)
-        for gapn in task['gaps']:
-            for n in (1, 2, 3):
-                for between in ([], [addi]):
-                    pre = [L.const('QQ', '7'), L.label('QQ')] + [addi] * n
-                    yield progs.span_program(sym[1], task['dir'], between, gapn, pre=pre)
-                    yield progs.span_program(sym[1], task['dir'], between + [progs.I('addi', 'mv x8, x9', rd=8, rs1=9, imm=0)], gapn, pre=[L.const('QQ', '7'), L.label('QQ'), L.li(9, 1)] + [addi] * (n - 1))
     else:
         gen = symbolic_programs() if k == 'symbolic' else near_label_programs()
         for i, p in enumerate(gen):
